@@ -55,6 +55,7 @@ type item struct {
 // ---- executing a history ---------------------------------------------------------------------------
 
 type runner struct {
+	light  bool    // observe only the registry getters (scratch / monitor runs)
 	cur    *state  // the state after the last item (nil: unknown)
 	status string  // result of the last block item
 	out    *hx.Out // nil: silent run
@@ -88,13 +89,13 @@ func (r *runner) violf(format string, a ...any) {
 
 func (r *runner) before() *state {
 	if r.cur == nil {
-		r.cur = r.n.observe()
+		r.cur = r.n.observeLevel(!r.light)
 	}
 	return r.cur
 }
 
 func (r *runner) state() *state {
-	st := r.n.observe()
+	st := r.n.observeLevel(!r.light)
 	r.cur = st
 	r.obs(st.lines()...)
 	if !st.memdb {
@@ -358,7 +359,7 @@ func checkRules(e *absEvent, before, after *state, viol func(string, ...any)) {
 func monitorC11(items []*item, final *state, tasks []string, viol func(string, ...any)) {
 	n := newNode()
 	defer n.close()
-	r := &runner{n: n}
+	r := &runner{n: n, light: true}
 	prev := r.before()
 	for _, it := range rebatch(items) {
 		st := r.exec(it)
@@ -374,6 +375,7 @@ func monitorC11(items []*item, final *state, tasks []string, viol func(string, .
 	for _, v := range r.viol {
 		viol("in the one-event-per-block run: %s", v)
 	}
+	prev = n.observe()
 	if prev.registryKey() != final.registryKey() {
 		viol("C11 batching changes the result: as batched %q, one event per block %q", final.registryKey(), prev.registryKey())
 	}
